@@ -18,6 +18,8 @@ DRIVERS: dict[str, list[list[str]]] = {
     "C04": [["drivers/sendpaths.py"]],
     "C11": [["drivers/budget.py"]],
     "C06": [["drivers/streams.py", "--max-len", "5"], ["drivers/streams.py", "--mode", "directed"]],
+    "C20": [["drivers/flow_control.py"]],
+    "C19": [["drivers/connect_race.py"]],
     "C07": [["drivers/streams.py", "--mode", "bound"], ["drivers/streams.py", "--mode", "directed"], ["drivers/streams.py", "--max-len", "5"]],
 }
 
